@@ -2,6 +2,8 @@ package core
 
 import (
 	"regexp"
+	"sort"
+	"strings"
 
 	"golang.org/x/tools/go/ssa"
 )
@@ -214,4 +216,93 @@ func (w *World) Sites(fn *ssa.Function, re *regexp.Regexp, deep bool) []ssa.Inst
 		}
 	}
 	return out
+}
+
+// ReachConsistent is Reach with a path-sensitive refinement: for If conditions whose canonical expression
+// matches one of `stable` (audited: pure expressions over SSA registers, e.g. a call result tested twice),
+// a path may not take the + edge at one test and the − edge at another. Returns whether `target`
+// (instruction, or block entry when in == nil) is reachable from the function entry.
+func (w *World) ReachConsistent(fn *ssa.Function, c *Cut, stable []*regexp.Regexp, target ssa.Instruction) bool {
+	if len(fn.Blocks) == 0 {
+		return false
+	}
+	type state struct {
+		b   *ssa.BasicBlock
+		key string
+	}
+	type item struct {
+		b      *ssa.BasicBlock
+		assign map[string]bool
+	}
+	keyOf := func(m map[string]bool) string {
+		ks := make([]string, 0, len(m))
+		for k, v := range m {
+			if v {
+				ks = append(ks, "+"+k)
+			} else {
+				ks = append(ks, "-"+k)
+			}
+		}
+		sort.Strings(ks)
+		return strings.Join(ks, ";")
+	}
+	seen := map[state]bool{}
+	stack := []item{{fn.Blocks[0], map[string]bool{}}}
+	tb := target.Block()
+	for len(stack) > 0 {
+		it := stack[len(stack)-1]
+		stack = stack[:len(stack)-1]
+		st := state{it.b, keyOf(it.assign)}
+		if seen[st] {
+			continue
+		}
+		seen[st] = true
+		if it.b == tb && !blockHasCutInstr(it.b, c, target) {
+			return true
+		}
+		if blockHasCutInstr(it.b, c, nil) {
+			continue
+		}
+		t, f, isIf := w.BlockLits(it.b)
+		for i, s := range it.b.Succs {
+			if c.Edges[EdgeKey{it.b, i}] {
+				continue
+			}
+			na := it.assign
+			if isIf {
+				l := t
+				if i == 1 {
+					l = f
+				}
+				if matchAnyStr(l.Expr, stable) {
+					if v, ok := it.assign[l.Expr]; ok && v != l.Pol {
+						continue // infeasible: contradicts an earlier test of the same stable expression
+					}
+					na = map[string]bool{}
+					for k, v := range it.assign {
+						na[k] = v
+					}
+					na[l.Expr] = l.Pol
+				}
+			}
+			stack = append(stack, item{s, na})
+		}
+	}
+	return false
+}
+
+// GuardedByConsistent is GuardedBy with the path-sensitive refinement of ReachConsistent.
+func (w *World) GuardedByConsistent(in ssa.Instruction, g Gate, stable []*regexp.Regexp) bool {
+	if len(stable) == 0 {
+		return w.GuardedBy(in, g)
+	}
+	fn := in.Parent()
+	c := w.GateCut(fn, g)
+	if !w.ReachConsistent(fn, c, stable, in) {
+		return true
+	}
+	if mc := w.ClosureSite[fn]; mc != nil {
+		return w.GuardedByConsistent(mc, g, stable)
+	}
+	return false
 }
